@@ -68,27 +68,38 @@ def generate(rng, tier, run, seed=0):
     fix = rng.random() < 0.5
     nfiles = rng.choice([1, 1, 1, 2, 3])
     dest = rng.choice(['stdout', 'stdout', 'outfile', 'inplace'])
-    if dest == 'outfile':
-        nfiles = 1
     docs = [gen_doc(rng, fix) for _ in range(nfiles)]
-    return {'docs': docs, 'eol': rng.random() < 0.5, 'fix': fix, 'dest': dest, 'odd_names': rng.random() < 0.1}
+    case = {'docs': docs, 'eol': rng.random() < 0.5, 'fix': fix, 'dest': dest, 'odd_names': rng.random() < 0.1}
+    # environment knob: the encoding of the stdout device (locale / PYTHONIOENCODING); None = a plain text sink
+    case['stdout_enc'] = rng.choice([None, None, 'utf-8', 'utf-8', 'ascii', 'latin-1', 'cp1252'])
+    return case
 
 
 # ------------------------------------------------------------------ execution
 
-def run_norm(argv):
-    """run x12norm.main() in-process -> stdout text"""
+def run_norm(argv, enc=None):
+    """run x12norm.main() in-process -> stdout text.  enc: encoding of the simulated stdout device (a TextIOWrapper over
+    a byte sink, as the real sys.stdout is); what the device received is read back one character per byte, the way the
+    reader reads a file.  None: a plain text sink without a byte layer."""
     import logging
     import pyx12.scripts.x12norm as xn
     old_argv, old_out = sys.argv, sys.stdout
     root = logging.getLogger()
     keep = list(root.handlers)
     lvl = root.level
-    buf = io.StringIO()
+    raw = None
+    if enc is None:
+        buf = io.StringIO()
+    else:
+        raw = io.BytesIO()
+        buf = io.TextIOWrapper(raw, encoding=enc, newline='', write_through=True)
     sys.argv = ['x12norm'] + argv
     sys.stdout = buf
     try:
         xn.main()
+        if raw is not None:
+            buf.flush()
+            return raw.getvalue().decode('latin-1')
     finally:
         sys.argv, sys.stdout = old_argv, old_out
         seams.drop_root_handlers(keep)
@@ -192,8 +203,13 @@ def execute(case):
             argv.append('-i')
         argv += paths
         log.ev('argv', [a if not a.startswith(d) else os.path.basename(a) for a in argv])
+        enc = case.get('stdout_enc')
+        if enc:
+            out.fault('stdout-device:' + enc)
+        if case['dest'] == 'outfile' and len(paths) > 1:
+            out.fault('outfile-several-inputs')
         try:
-            so = run_norm(argv)
+            so = run_norm(argv, enc)
         except SystemExit as e:
             out.violate('exit', 'systemexit', 'x12norm exited: %r' % (e.code,))
             return finish(out, log, evals)
@@ -211,7 +227,7 @@ def execute(case):
                 singles = []
                 for p in paths:
                     a2 = [x for x in argv if x not in paths] + [p]
-                    singles.append(run_norm(a2))
+                    singles.append(run_norm(a2, enc))
                     evals += 1
                 if ''.join(singles) != so:
                     out.violate('concat', 'multi-file-stdout', 'stdout of several inputs is not the concatenation of the single runs')
@@ -219,7 +235,20 @@ def execute(case):
         elif case['dest'] == 'outfile':
             if so != '':
                 out.violate('dest', 'stdout-with-o', 'text on stdout although -o was given')
-            produced = [open(outp, encoding='latin-1', newline='').read() if os.path.exists(outp) else '']
+            whole = open(outp, encoding='latin-1', newline='').read() if os.path.exists(outp) else ''
+            if len(paths) == 1:
+                produced = [whole]
+            else:
+                # several inputs, one output file: it receives what stdout would have received, input after input
+                singles = []
+                for p in paths:
+                    singles.append(run_norm([x for x in argv if x not in paths and x not in ('-o', outp)] + [p]))
+                    evals += 1
+                if ''.join(singles) != whole:
+                    out.violate('concat', 'multi-file-outfile', '-o with %d inputs: the file holds %d characters, the inputs normalise to %s' % (
+                        len(paths), len(whole), [len(x) for x in singles]))
+                    return finish(out, log, evals)
+                produced = singles
         else:
             if so != '':
                 out.violate('dest', 'stdout-with-i', 'text on stdout although -i was given')
@@ -235,7 +264,7 @@ def execute(case):
                 f.write(produced[i])
             if produced[i].startswith('ISA'):
                 try:
-                    again = run_norm((['-e'] if case['eol'] else []) + (['-f'] if case['fix'] else []) + [p2])
+                    again = run_norm((['-e'] if case['eol'] else []) + (['-f'] if case['fix'] else []) + [p2], enc)
                     evals += 1
                     if again != produced[i]:
                         out.violate('idempotence', 'not-idempotent', 'file %d: normalising the output again changes it' % i)
@@ -294,7 +323,7 @@ def shrink(case, still):
         best = dict(best, docs=[dict(doc, text=head + ''.join(p + seg_term for p in items) + tail)])
     except Exception:
         pass
-    for k, v in (('eol', False), ('fix', False), ('dest', 'stdout')):
+    for k, v in (('stdout_enc', None), ('eol', False), ('fix', False), ('dest', 'stdout')):
         c = dict(best, **{k: v})
         if still(c):
             best = c
